@@ -107,8 +107,14 @@ func ruleGateTable(c *Ctx, prop string) {
 			tensorDtype[nextT] = dt
 			return pval{k: pAbs, i: nextT, s: "tensor"}
 		}
+		panicked := ""
 		newP := func() *pinterp {
-			p := &pinterp{c: c, budget: 400000, objects: true, globals: p0.globals, trace: os.Getenv("R38TRACE") == row.name}
+			p := &pinterp{c: c, budget: 400000, objects: true, globals: p0.globals, strictIndex: true, trace: os.Getenv("R38TRACE") == row.name}
+			p.onPanic = func(fn *ssa.Function, in ssa.Instruction, what string) {
+				if panicked == "" {
+					panicked = what + " at " + c.pos(in.Pos())
+				}
+			}
 			p.onInvoke = func(fn *ssa.Function, call *ssa.Call, recv pval, method string, args []pval, h *pheap) ([]pval, bool) {
 				if recv.k == pAbs && recv.s == "tensor" && method == "Dtype" {
 					return []pval{tensorDtype[recv.i]}, true
@@ -199,6 +205,10 @@ func ruleGateTable(c *Ctx, prop string) {
 		}
 		// tables from a first cell with a plausible input count
 		_, min0, max0, cons0, ok0 := runCell(nil)
+		if panicked != "" {
+			bads = append(bads, row.name+" with no inputs: the gate panics ("+panicked+") instead of reporting the input count")
+			continue
+		}
 		if !ok0 {
 			bads = append(bads, row.name+": the operator's minimum / maximum / type table could not be read")
 			continue
@@ -244,7 +254,13 @@ func ruleGateTable(c *Ctx, prop string) {
 			}
 			check := func(in []pval, desc string, wantErr bool, consUsed [][]pval) {
 				cells++
+				panicked = ""
 				out, min, max, cons, tOK := runCell(in)
+				if panicked != "" {
+					evaluated++
+					set(fmt.Sprintf("%s %s: the gate panics (%s)", row.name, desc, panicked))
+					return
+				}
 				if !out.followed || !tOK {
 					if os.Getenv("R38DEBUG") != "" {
 						fmt.Printf("R38DEBUG unfollowed %s %s followed=%v tables=%v\n", row.name, desc, out.followed, tOK)
